@@ -47,10 +47,30 @@ def check(ctx):
     ctx.rule("C09-H", "collapsed whitespace takes its tag with it: on every path of flush_word on which pending whitespace is "
              "discarded (wslen := 0 without being written), spacetag is cleared before the line is flushed — block padding is "
              "tagged with spacetag, so a stale one would put an inline element's annotations on the padding")
+    ctx.rule("C09-I", "padding is a run of its own carrying the tag it is given: TaggedLine::pad_to changes the line only through "
+             "push_ws(n, tag) with the caller's tag and never grows an existing piece")
     for rid, fn in (("C09-A", rule_a), ("C09-B", rule_b), ("C09-C", rule_c), ("C09-D", rule_d),
                     ("C09-E", rule_e), ("C09-F", rule_f), ("C09-F", rule_f2), ("C09-C", rule_h), ("C09-G", rule_g),
-                    ("C09-H", rule_ws_tag)):
+                    ("C09-H", rule_ws_tag), ("C09-I", rule_pad_tag)):
         ctx.guard(rid, fn)
+
+
+def rule_pad_tag(ctx):
+    """Padding is a run of its own with the tag it is given: TaggedLine::pad_to changes the line only through
+    push_ws(self, n, tag) with the caller's tag; it never grows an existing piece (whose tag belongs to an element)."""
+    F = ctx.facts
+    b = F.one("TaggedLine::<T>::pad_to")
+    pw = b.calls(lambda cd, t: ends(cd, "TaggedLine::<T>::push_ws"))
+    pl = direct_place(b, pw[0][1]["args"][2]) if len(pw) == 1 else None
+    okc = len(pw) == 1 and pl is not None and pl["l"] == 3   # the tag parameter itself (possibly re-borrowed)
+    ctx.check(okc, "C09-I", "pad_to:padding=push_ws(n, given tag)", b.span, b.id, "%d push_ws calls" % len(pw))
+    other = sorted({callee_method(t) for _bb, t in b.calls() if callee_method(t) in
+                    ("push", "push_str", "push_char", "last_mut", "iter_mut", "extend", "insert", "insert_str", "get_mut", "index_mut", "repeat")})
+    ctx.check(not other, "C09-I", "pad_to:no-other-mutation", b.span, b.id,
+              "pad_to also uses %s: padding merged into an existing piece takes over that piece's annotations (a link, an "
+              "emphasis) instead of the tag of the block" % other)
+    writes = [1 for (bb, where, pl, acc) in b.all_places() if acc in ("write", "refmut") and any(isinstance(e, dict) and e.get("n") in ("v", "s") for e in pl["p"])]
+    ctx.check(not writes, "C09-I", "pad_to:no-direct-write-to-pieces", b.span, b.id, "")
 
 
 def rule_ws_tag(ctx):
